@@ -26,6 +26,8 @@ type Case struct {
 	// Moves: partitions that have moved away from one of their hosts; only that former host (and the new host) know,
 	// every other node - the asker included - still has the old replica list
 	Moves []Move `json:"moves,omitempty"`
+	// Patient: with a hanging lookup the caller waits 2.6 s instead of 60 ms (a client without a tight deadline)
+	Patient bool `json:"patient,omitempty"`
 }
 
 type Move struct {
@@ -60,6 +62,11 @@ func genCase(t *rapid.T) Case {
 			}
 		}
 		c.Beh = append(c.Beh, b)
+	}
+	for _, b := range c.Beh {
+		if b.Kind == lite.BehHang && rapid.IntRange(0, 11).Draw(t, "patient") == 0 {
+			c.Patient = true
+		}
 	}
 	if c.Nodes >= 2 && rapid.IntRange(0, 3).Draw(t, "moved") == 0 {
 		for i, n := 0, rapid.IntRange(1, 2).Draw(t, "nmoves"); i < n; i++ {
@@ -203,6 +210,10 @@ func check(c Case, o *pbt.Obs) *pbt.Failure {
 	for _, b := range c.Beh {
 		if b.Kind == lite.BehHang {
 			timeout = 60 * time.Millisecond
+			if c.Patient {
+				timeout = 2600 * time.Millisecond
+				o.Label("patient-caller-with-a-hanging-lookup")
+			}
 		}
 	}
 	ctx, cancel := context.WithTimeout(context.Background(), timeout)
